@@ -281,6 +281,7 @@ class Check:
         results = [None] * len(shards)
         pending = list(enumerate(shards))
         running = []
+        attempts = {}
 
         def launch(k, sh_terms):
             path = os.path.join(d, f'cases_{k}.v')
@@ -313,6 +314,12 @@ class Check:
                     continue
                 out.close()
                 txt = open(path + '.out', encoding='utf-8', errors='replace').read()
+                if rc != 0 and (rc < 0 or not txt.strip()) and attempts.get(k, 0) < 2:
+                    # killed from outside (kernel OOM killer when several checks run at once): not a verdict - run the shard again
+                    attempts[k] = attempts.get(k, 0) + 1
+                    time.sleep(1.0 + 2.0 * attempts[k])
+                    pending.append((k, shards[k]))
+                    continue
                 if rc != 0:
                     results[k] = ('error', txt[-1500:])
                 else:
